@@ -233,7 +233,11 @@ def check_pair(ctx, seed, k):
     qroot = SA.query_type.name if SA.query_type else None
     for text in ('{ __typename }',) + ((f'query Q {{ __typename }} fragment F on {qroot} {{ __typename }}',) if qroot else ()):
         try:
-            same = extend_schema(SA, parse(text), assume_valid_sdl=rng.random() < 0.5)
+            # whatever the validity options say (they concern validation, not whether anything is added)
+            opts = {"assume_valid_sdl": rng.random() < 0.5}
+            if rng.random() < 0.5:
+                opts["assume_valid"] = rng.random() < 0.5
+            same = extend_schema(SA, parse(text), **opts)
         except Exception as e:  # noqa: BLE001
             ctx.violation(f"noop-extension-crash:{type(e).__name__}", {"document": text, "exception": repr(e)[:200]}, case)
             return
